@@ -74,6 +74,15 @@ class C05Monitor(Monitor):
                 self.keep.append(d)
             self.last_ran[id(d)] = w.step
 
+    def _ran(self, deme):
+        if id(deme) not in self.last_ran:
+            self.keep.append(deme)
+        self.last_ran[id(deme)] = self.w.step
+
+    def on_lsc(self, deme, raw, verdict):
+        if self.w.phase == "metaepoch":
+            self._ran(deme)
+
     def on_step_begin(self, tree):
         self.step_consults = {}
         if self.t is not None and not self.flip:
@@ -120,7 +129,8 @@ class C05Monitor(Monitor):
             return not any(d._active for d in demes)
         if k == "no_active_nonroot":
             # "no active non-root deme for n metaepochs": idle time counted from the last metaepoch in which the
-            # deme really ran (observed by the simulator: it requested evaluations during the metaepoch phase).
+            # deme really ran (observed by the simulator: during the metaepoch phase it requested an evaluation,
+            # consulted the GSC after a generation or consulted its LSC - a generation may need no evaluation).
             # With hibernation demes skip metaepochs and pyhms' own bookkeeping (started_at + metaepoch_count) is
             # the only definition there is, so it is used then.
             hib = bool(w.plan.get("options", {}).get("hibernation"))
@@ -145,6 +155,8 @@ class C05Monitor(Monitor):
         w = self.w
         if not w.tree_ready:
             return
+        if site == "gen" and deme is not None and w.phase == "metaepoch":
+            self._ran(deme)
         ref = self._reference_gsc(tree)
         if ref is not None:
             w.probe("c05-gsc-verdict-vs-definition")
@@ -153,6 +165,8 @@ class C05Monitor(Monitor):
                              {"returned": bool(raw), "definition": bool(ref), "site": site})
         if site == "gen" and deme is not None:
             self.step_consults[id(deme)] = self.step_consults.get(id(deme), 0) + 1
+            if w.phase == "metaepoch":
+                self._ran(deme)
         if self.t is None:
             if verdict:
                 demes = {}
